@@ -13,7 +13,9 @@ RULE = ("random rose trees 1-12 leaves (30 in thorough; unary nodes/chains incl.
         "API variants (prune_taxa, prune_taxa_with_labels, retain_taxa, retain_taxa_with_labels, filter_leaf_nodes, "
         "prune_leaves_without_taxa, extract_tree_with_taxa(_labels), extract_tree_without_taxa(_labels), extract_tree) run on the same "
         "input; plus filter_leaf_nodes / extract_tree with arbitrary node-id predicates (recursive on/off, leaf/internal filter flags), "
-        "prune_subtree at every kind of node, prune_taxa with the leaf/internal flags on trees with internal taxa. thorough adds every "
+        "prune_subtree at every kind of node, Node.extract_subtree started at any node, prune_taxa with the leaf/internal flags on trees with "
+        "internal taxa; the driver's measurement functions (clade masks, leaf-to-leaf path lengths) and both specifications (restrict, "
+        "restrictA) are compared with from-scratch Python walks; sources carry tree/edge/node labels and a weight. thorough adds every "
         "subset of every ordered shape <= 5 leaves and of every unordered shape with 6 and 7 leaves. Non-trivial = 1 < |K| < n "
         "(taxon group) or a predicate that removes some but not all leaves")
 MODELLED_NOT_VERIFIED = [
@@ -27,14 +29,17 @@ MODELLED_NOT_VERIFIED = [
 ]
 EXPLANATION = ("Theorems over all trees/predicates about the definitions drv_c08 runs: the loop-based in-place mechanisms and the memo-driven "
                "extraction equal the recursively defined induced subtree `restrict` (prune_eq_restrict, filter_eq_restrict, retain_eq_prune_compl, "
-               "extract_eq_restrict, extract_all_leaves, taxonFilter_restrict, variants_agree; dropLoop_fuel: the loop's fuel suffices), suppression "
-               "after restriction = restriction with merging (restrict_sup_commutes), clades of the result are exactly the non-empty restrictions "
-               "(restrict_clades, restrict_none_clades), leaf-to-leaf and root-to-leaf lengths are kept in Q (restrict_pathlen, restrict_rootlen), "
-               "declined suppression moves no length and keeps node records in order (nosuppress_spec), requested suppression leaves no unary node "
-               "(suppress_no_unary), removed nodes + nodes of the unsuppressed result are a permutation of the input's nodes (removed_spec), a single "
-               "survivor is that leaf with the accumulated length (single_survivor). Hypotheses: taxa on leaves only, taxon-driven filters reject "
-               "taxon-less nodes, distinct node ids, non-zero denominators. Not proved (correspondence + oracle only): prune_subtree, arbitrary "
-               "id-predicates that accept former internal nodes, the internal-node filter flags.")
+               "extract_eq_restrict, extract_all_leaves, extract_node_eq_restrict for any start node, extract_error_kind for the exception class, "
+               "taxonFilter_restrict, variants_agree with finite prune/namespace lists, prune_subtree_eq_restrict); for ARBITRARY filters and trees "
+               "the loop computes the generalised spec restrictA (filter_eq_restrictA, removed_spec_any, restrictA_eq_restrict), its fuel always "
+               "suffices (dropLoop_fuel), the non-recursive call is one pass (filter_once_spec); suppression after restriction = restriction with "
+               "merging (restrict_sup_commutes); clades are exactly the non-empty restrictions (restrict_clades, restrict_none_clades); leaf-to-leaf "
+               "and root-to-leaf lengths are kept in Q (restrict_pathlen, restrict_rootlen) and the executable distF the driver prints denotes them "
+               "(distF_denotes, restrict_pathlen_exec); declined suppression keeps exactly the nodes with a kept leaf below, their records and the "
+               "parent/child pairs (alive_spec, nosuppress_nodes, nosuppress_edges, nosuppress_spec); requested suppression leaves no unary node "
+               "(suppress_no_unary); removed nodes (removed_spec); single survivor (single_survivor). Hypotheses where stated: taxa on leaves only, "
+               "taxon-driven filters, distinct node ids, non-zero denominators. Correspondence + oracle only: the internal-node filter flag "
+               "(fi=true) of prune_taxa/extract_tree, update_bipartitions, label lookups, source immutability.")
 
 
 ROOT = {True: "R", False: "U", None: "N"}
@@ -59,6 +64,17 @@ class Src(object):
             else:
                 self.kids[p].append(i)
         self.leaves = [i for i in range(n) if not self.kids[i]]
+
+    def subtree(self, v):
+        """the same arrays seen from node v as root"""
+        import copy
+        o = copy.copy(self)
+        o.par = list(self.par)
+        o.par[v] = -1
+        o.root = v
+        inside = set(self.below(v))
+        o.leaves = [i for i in self.leaves if i in inside]
+        return o
 
     def below(self, i):
         out, stack = [], [i]
@@ -209,6 +225,14 @@ def make_tree(dendropy, case, toks=None):
     order = {b: i for i, b in enumerate(ns["bits"])}
     tns._taxa.sort(key=lambda t: order[tns.accession_index(t)])
     tree, ids = tu.tree_from_tokens(dendropy, toks or case["tree"], rooted=UNROOT[case["rooted"]], tns=tns)
+    tree.label = "src"
+    tree.weight = 2.0
+    tree.length_type = "x"
+    for i in range(len(ids)):
+        if i % 3 == 1:
+            ids.node(i).edge.label = "e%d" % i
+        if i % 4 == 2:
+            ids.node(i).label = "n%d" % i
     return tree, ids
 
 
@@ -364,6 +388,9 @@ def judge(ctx, case, variant, src, surv, out, expect_removed=None):
     probs = tu.arborescence_problems(res)
     if probs:
         return fail("structure", "%s: result is not a well-formed tree: %s" % (variant, probs))
+    if sort_nest(got) == sort_nest(want) and got != want:
+        return fail("child-order", "%s: the children of a node come in another order than in the source: result %s, induced subtree %s" % (
+            variant, render_nest(got), render_nest(want)))
     if sort_nest(got) != sort_nest(want):
         w, g = render_nest(sort_nest(want)), render_nest(sort_nest(got))
         kind = "induced-subtree"
@@ -392,10 +419,11 @@ def judge(ctx, case, variant, src, surv, out, expect_removed=None):
                 return fail("extraction-source", "%s: a new node has no extraction_source in the source tree" % variant)
             if id(nd) in srcnodes:
                 return fail("source-mutated", "%s: the extracted tree shares a node object with the source" % variant)
-            if es.taxon is not nd.taxon or es.label != nd.label:
-                return fail("extraction-source", "%s: a new node differs from its extraction_source in taxon or label" % variant)
-        if res.taxon_namespace is not s.taxon_namespace or res.is_rooted != s.is_rooted:
-            return fail("extraction-source", "%s: extracted tree has another namespace or rooting" % variant)
+            if es.taxon is not nd.taxon or es.label != nd.label or es.edge.label != nd.edge.label:
+                return fail("extraction-source", "%s: a new node differs from its extraction_source in taxon, label or edge label" % variant)
+        if out.get("tree_level", True) and (res.taxon_namespace is not s.taxon_namespace or res.is_rooted != s.is_rooted
+                                            or res.label != s.label or res.weight != s.weight or res.length_type != s.length_type):
+            return fail("extraction-source", "%s: extracted tree differs from the source in namespace, rooting, label, weight or length_type" % variant)
     if out.get("removed") is not None:
         ids = out["ids"]
         rem = [ids.of(n) for n in out["removed"]]
@@ -445,10 +473,30 @@ def taxon_group(ctx, dendropy, case, pending, variants=None):
             continue
         if not bad:
             pending.append((out["line"], dict(case, variant=variant), impl_text(out)))
+    if len(src.leaves) <= 14 and case.get("measure", True):
+        measure_line(ctx, dendropy, case, src, pending)
     # the specification of the model itself against this oracle's induced subtree
     want = build_from_survivors(src, surv, case["sup"])
     pending.append(("restrict %d keep %s %s" % (case["sup"], nums(sorted(K)), " ".join(case["tree"])),
                     dict(case, variant="restrict-spec"), render_nest(want)))
+
+
+def measure_line(ctx, dendropy, case, src, pending):
+    """the measurement functions of the clause theorems (clade masks, leaf-to-leaf path lengths) as the driver computes them,
+    against from-scratch walks over the real source tree"""
+    tree, ids = make_tree(dendropy, case)
+    masks = sorted(tu.leafset_masks(tree).values())
+    paths = tu.leaf_paths(tree)
+    leaves = [i for i in src.leaves if src.tax[i] is not None]
+    parts = []
+    if len(leaves) == len(src.leaves):
+        for a in src.leaves:
+            for b in src.leaves:
+                if a < b:
+                    d = paths[frozenset(("t%d" % src.tax[a], "t%d" % src.tax[b]))][0]
+                    parts.append("%d:%d:%s" % (a, b, tu.frac(d)))
+        pending.append(("measure " + " ".join(case["tree"]), dict(case, variant="measure"),
+                        " ".join(map(str, masks)) + " | " + " ".join(parts)))
 
 
 # =================================================================== predicate group: arbitrary filters, prune_subtree, flags
@@ -485,6 +533,10 @@ def filter_case(ctx, dendropy, case, pending):
     c2 = dict(case, clause_checks=all(not src.kids[i] for i in surv if not any(c in surv for c in src.kids[i])))
     if not judge(ctx, c2, "filter_leaf_nodes", src, surv, out):
         pending.append((line, case, impl_text(out)))
+    if rec:
+        # the model's generalised specification against this oracle's survivors
+        pending.append(("restrictA %d ids %s %s" % (case["sup"], nums(sorted(acc)), " ".join(case["tree"])),
+                        dict(case, variant="restrictA-spec"), render_nest(build_from_survivors(src, surv, case["sup"]))))
 
 
 def extract_case(ctx, dendropy, case, pending):
@@ -515,6 +567,49 @@ def extract_case(ctx, dendropy, case, pending):
     out = {"tree": res, "idfn": lambda nd: ids.of(getattr(nd, "extraction_source", None)), "ids": ids, "source": tree, "fp_before": fp}
     if not judge(ctx, dict(case, upd=False), "extract_tree", src, surv, out):
         pending.append((line, case, impl_text(out)))
+    if not fi:
+        keep = sorted(acc) if fl else list(range(src.n))
+        pending.append(("restrict %d ids %s %s" % (case["sup"], nums(keep), " ".join(case["tree"])),
+                        dict(case, variant="restrict-spec"), render_nest(build_from_survivors(src, surv, case["sup"]))))
+
+
+def extract_node_case(ctx, dendropy, case, pending):
+    """Node.extract_subtree called on an arbitrary node (seed or not)"""
+    full = Src(case["tree"])
+    v = case["node"]
+    src = full.subtree(v)
+    acc = set(case["acc"])
+    fl, fi = case["fl"], case["fi"]
+    surv, status = survivors_extract(src, acc, fl, fi)
+    line = "extractnode %d %d %d %d ids %s %s" % (case["sup"], fl, fi, v, nums(sorted(acc)), " ".join(case["tree"]))
+    ctx.case(["extractnode", case["tree"], v, sorted(acc), fl, fi, case["sup"]], v != full.root and len(surv) > 1, kind="extract_subtree-node",
+             sample=case)
+    tree, ids = make_tree(dendropy, case)
+    fp = fingerprint(tree)
+    try:
+        res_node = ids.node(v).extract_subtree(node_filter_fn=lambda nd: ids.of(nd) in acc, suppress_unifurcations=case["sup"],
+                                               is_apply_filter_to_leaf_nodes=fl, is_apply_filter_to_internal_nodes=fi)
+    except Exception as e:
+        name = exc_name(e)
+        if fingerprint(tree) != fp:
+            ctx.fail("source-mutated", "Node.extract_subtree changed the source tree (and raised %s)" % name, case)
+        elif status != "ok" and name in ("SeedNodeDeletion", "ValueError"):
+            want = status if v == full.root else "ValueError"
+            pending.append((line, case, name if name == want else "%s (expected %s)" % (name, want)))
+        elif status == "ok":
+            ctx.fail("induced-subtree", "Node.extract_subtree on node %d raised %s although the filter keeps %d leaves below it" % (
+                v, name, len([i for i in surv if not src.kids[i]])), case)
+        else:
+            ctx.fail("exception", "Node.extract_subtree raised %s: %s" % (name, str(e)[:200]), case)
+        return
+    if status != "ok":
+        ctx.fail("induced-subtree", "Node.extract_subtree returned a node although the filter leaves nothing of the start node", case)
+        return
+    holder = dendropy.Tree(taxon_namespace=tree.taxon_namespace, seed_node=res_node)
+    out = {"tree": holder, "idfn": lambda nd: ids.of(getattr(nd, "extraction_source", None)), "ids": ids, "source": tree, "fp_before": fp,
+           "tree_level": False}
+    if not judge(ctx, dict(case, upd=False, clause_checks=False), "Node.extract_subtree", src, surv, out):
+        pending.append((line, case, impl_text(out)))
 
 
 def subtree_case(ctx, dendropy, case, pending):
@@ -534,7 +629,13 @@ def subtree_case(ctx, dendropy, case, pending):
         ctx.fail("exception", "prune_subtree raised %s: %s" % (type(e).__name__, str(e)[:200]), case)
         return
     if not kept:
-        return   # no leaf survives: outside the quantifier of the statement
+        # no leaf survives (outside the quantifier of the statement): the bare seed must be left; compared with the model
+        got = nest_of(tree.seed_node, ids.of, tree.taxon_namespace)
+        if got[0] != src.root or got[3]:
+            ctx.fail("induced-subtree", "prune_subtree of everything below the seed left %s instead of the bare seed" % render_nest(got), case)
+        else:
+            pending.append((line, case, render_nest(got)))
+        return
     out = {"tree": tree, "idfn": ids.of, "ids": ids}
     if not judge(ctx, case, "prune_subtree", src, surv, out):
         pending.append((line, case, impl_text(out)))
@@ -552,8 +653,10 @@ def flags_case(ctx, dendropy, case, pending):
     try:
         tree.prune_taxa([by_bit[b] for b in P], suppress_unifurcations=case["sup"], is_apply_filter_to_leaf_nodes=case["fl"],
                         is_apply_filter_to_internal_nodes=case["fi"])
-    except AttributeError:
-        pending.append((line, case, "err"))   # the seed itself would go: 'NoneType' has no attribute 'remove_child'
+    except Exception:
+        # the seed itself would have to go (today: 'NoneType' has no attribute 'remove_child'); the model says "err" exactly then,
+        # whatever exception class the code chooses
+        pending.append((line, case, "err"))
         return
     probs = tu.arborescence_problems(tree)
     if probs:
@@ -687,11 +790,18 @@ def gen_pred_case(dendropy, rng, max_leaves):
         case.update(op="filter", acc=acc, recursive=rng.random() < 0.65, upd=rng.random() < 0.25)
         if case["upd"]:
             case["rooted"] = "R"
-    elif r < 0.75:
+    elif r < 0.68:
         p = rng.choice([0.3, 0.6, 0.9])
         pi = rng.choice([0.5, 0.9, 1.0])
         acc = [i for i in range(src.n) if rng.random() < (pi if src.kids[i] else p)]
         case.update(op="extract", acc=acc, fl=rng.random() < 0.8, fi=rng.random() < 0.5)
+    elif r < 0.8:
+        p = rng.choice([0.3, 0.6, 0.9])
+        pi = rng.choice([0.9, 1.0, 1.0])
+        acc = [i for i in range(src.n) if rng.random() < (pi if src.kids[i] else p)]
+        internal = [i for i in range(src.n) if src.kids[i]]
+        node = rng.choice(internal) if (internal and rng.random() < 0.85) else rng.randrange(src.n)
+        case.update(op="extract_node", acc=acc, node=node, fl=rng.random() < 0.85, fi=rng.random() < 0.3)
     else:
         if src.n < 2:
             return None
@@ -713,6 +823,10 @@ def run_case(ctx, dendropy, case, pending, variants=None):
         subtree_case(ctx, dendropy, case, pending)
     elif op == "flags":
         flags_case(ctx, dendropy, case, pending)
+    elif op == "extract_node":
+        extract_node_case(ctx, dendropy, case, pending)
+    else:
+        raise ValueError("unknown op in case: %r" % (op,))
 
 
 def flush(ctx, pending):
